@@ -307,6 +307,8 @@ pub(crate) async fn shared_rng(
             .for_each(|(buf_xor_byte, buf_byte)| *buf_xor_byte ^= *buf_byte);
     }
 
+    #[cfg(feature = "__verif")]
+    crate::verif::tap("seed_multi", i, &buf_xor.iter().map(|b| *b as u128).collect::<Vec<_>>());
     Ok(ChaCha20Rng::from_seed(buf_xor))
 }
 
@@ -392,6 +394,8 @@ async fn fabitn(
     let three_rho = 3 * RHO;
     let lprime = l + three_rho;
     let mut x: Vec<bool> = (0..lprime).map(|_| random()).collect();
+    #[cfg(feature = "__verif")]
+    crate::verif::tap_bits("abit_x", i, &x);
     debug!("Generated local bitstring x of length {}", lprime);
 
     // Steps 2) Use the output of the oblivious transfers between each pair of parties to generate keys and macs.
@@ -601,6 +605,8 @@ pub(crate) async fn fashare(
     )
     .await?;
 
+    #[cfg(feature = "__verif")]
+    crate::verif::tap_share_slice("ashare_check_shares", i, &xishares[l..]);
     // Step 3) Compute commitments and verify consistency.
     // Step 3 a) Compute d0, d1, dm, c0, c1, cm and broadcast commitments to all parties.
     let mut d0 = vec![0; RHO];
@@ -724,6 +730,12 @@ async fn fhaand(
             h0h1_for_j[ll].0 = (hash_kixj.as_bytes()[31] & 1 != 0) ^ sj;
             h0h1_for_j[ll].1 = (hash_kixj_delta.as_bytes()[31] & 1 != 0) ^ sj ^ yi[ll];
             vi[ll] ^= sj;
+        }
+        #[cfg(feature = "__verif")]
+        {
+            let mut v = vec![j as u128];
+            v.extend(vi.iter().map(|b| *b as u128));
+            crate::verif::tap("haand_s", i, &v);
         }
         send_to(channel, j, "haand", &h0h1_for_j)
             .await
@@ -947,10 +959,14 @@ async fn faand(
     // Step 1) Generate all leaky AND triples by calling flaand l' times.
     let zshares = flaand((channel, delta), (xshares, yshares, rshares), i, n, lprime).await?;
 
+    #[cfg(feature = "__verif")]
+    crate::verif::tap_share_slice("laand_z", i, &zshares);
     // Step 2) Randomly partition all objects into l buckets, each with b objects.
     // Use SliceRandom::shuffle for unbiased random permutation
     let mut indices: Vec<usize> = (0..lprime).collect();
     indices.shuffle(shared_rand);
+    #[cfg(feature = "__verif")]
+    crate::verif::tap("bucket_perm", i, &indices.iter().map(|x| *x as u128).collect::<Vec<_>>());
 
     // Distribute shuffled indices into buckets using chunks
     // Since indices.len() == lprime == l * b, chunks_exact(b) gives us exactly l chunks of size b
@@ -1007,6 +1023,12 @@ pub(crate) async fn beaver_aand(
         return Err(Error::InvalidLength);
     }
 
+    #[cfg(feature = "__verif")]
+    {
+        let flat: Vec<Share> = alpha_beta_shares.iter().flat_map(|(a, b)| [a.clone(), b.clone()]).collect();
+        crate::verif::tap_share_slice("beaver_ab", i, &flat);
+        crate::verif::tap_share_slice("beaver_abc", i, abc_shares);
+    }
     let abc_triples = faand((channel, delta), i, n, l, shared_rand, abc_shares).await?;
     debug!("Received {} AND triples from faand", abc_triples.len());
     let len = abc_triples.len();
@@ -1196,4 +1218,15 @@ fn combine_two_leaky_ands(
     let zshare = Share(zbit, zauth);
 
     Ok((xshare, y1, zshare))
+}
+
+#[cfg(feature = "__verif")]
+pub(crate) fn combine_two_leaky_ands_v(
+    i: usize,
+    n: usize,
+    t1: (Share, Share, Share),
+    t2: (&Share, &Share, &Share),
+    d: bool,
+) -> Result<(Share, Share, Share), Error> {
+    combine_two_leaky_ands(i, n, t1, t2, d)
 }
